@@ -1,4 +1,4 @@
-(* Server-level model runner: `<u|t> <edns> <catalog> <keys> <requesthex>`; prints the
+(* C04/C02 runner (helpers shared in spirit with run_srv.ml). Server-level model runner: `<u|t> <edns> <catalog> <keys> <requesthex>`; prints the
    abstract response in the field syntax of harness/src/srvcase.rs::render (without raw=).
    Query answering for Loaded zones and HMAC verification are parameters of the model.
    Query answering is plugged in at the OCTET level: when the server model reaches the answering
@@ -119,64 +119,75 @@ let parse_keys spec =
 let show_q (q : Reader.question) =
   Printf.sprintf "%s/%d/%d" (hex q.Reader.q_name.NameWire.n_wire) (n q.Reader.q_type) (n q.Reader.q_class)
 
-let () = run_lines (fun f ->
-  let dup s = s ^ " | " ^ s in      (* the model line doubles as the property oracle (see Props/C0x.v) *)
-  dup (match f with
-  | [tr; edns; cat; keys; req] ->
-    let answered = ref false and verified = ref false and reached = ref None in
-    let answer zid (q : Reader.question) _ _ = answered := true; reached := Some (int_of_nat zid, q); Server.empty_body in
-    let verify _ _ _ _ _ _ = verified := true; Server.VOk in
-    let cfg = { Server.c_transport = (if tr = "t" then Server.Tcp else Server.Udp);
-                Server.c_edns_size = n_of_int (int_of_string edns);
-                Server.c_buflen = nat_of_int 65535;
-                Server.c_catalog = dedup_catalog (parse_catalog cat);
-                Server.c_keys = parse_keys keys; Server.c_now = n_of_int 0 } in
-    (match Server.handle_message answer verify cfg (unhex req) with
-     | Res.Panic -> "panic"
-     | Res.Err _ -> "model-error"
-     | Res.Ok None -> "none"
-     | Res.Ok (Some w) when !reached <> None && w.Server.w_tsig = None ->
-       let (zid, q) = (match !reached with Some x -> x | None -> assert false) in
-       let zones = parse_zones cat in
-       (match (if zid < Array.length zones then zones.(zid) else None) with
+
+(* one transport: the response octets of the model, or a marker *)
+let respond tr edns cat req : string =
+  let reached = ref None in
+  let answer zid (q : Reader.question) _ _ = reached := Some (int_of_nat zid, q); Server.empty_body in
+  let verify _ _ _ _ _ _ = Server.VOk in
+  let cfg = { Server.c_transport = (if tr = "t" then Server.Tcp else Server.Udp);
+              Server.c_edns_size = n_of_int (int_of_string edns);
+              Server.c_buflen = nat_of_int 65535;
+              Server.c_catalog = dedup_catalog (parse_catalog cat);
+              Server.c_keys = []; Server.c_now = n_of_int 0 } in
+  match Server.handle_message answer verify cfg (unhex req) with
+  | Res.Panic -> "panic"
+  | Res.Err _ -> "model-error"
+  | Res.Ok None -> "none"
+  | Res.Ok (Some w) when !reached <> None && w.Server.w_tsig = None ->
+    let (zid, q) = (match !reached with Some x -> x | None -> assert false) in
+    let zones = parse_zones cat in
+    (match (if zid < Array.length zones then zones.(zid) else None) with
+     | None -> "panic"
+     | Some z ->
+       let qname = Query.labels_of q.Reader.q_name in
+       let est = estimate z qname q.Reader.q_type in
+       let buf = buffer (if est + 96 <= 4096 then 4096 else 65535) in
+       (match QueryW.respond_w Query.neg_ttl buf (tr = "t") w.Server.w_id w.Server.w_rd qname q.Reader.q_type q.Reader.q_class
+                (match w.Server.w_edns with Some (sz, _) -> Some sz | None -> None) w.Server.w_limit z with
         | None -> "panic"
-        | Some z ->
-          let qname = Query.labels_of q.Reader.q_name in
-          let tcp = (tr = "t") in
-          let est = estimate z qname q.Reader.q_type in
-          let buf = buffer (if est + 96 <= 4096 then 4096 else 65535) in
-          (match QueryW.respond_w Query.neg_ttl buf tcp w.Server.w_id w.Server.w_rd qname q.Reader.q_type q.Reader.q_class
-                   (match w.Server.w_edns with Some (sz, _) -> Some sz | None -> None) w.Server.w_limit z with
-           | None -> "panic"
-           | Some (len, b) -> render_octets (take (int_of_nat len) b)))
-     | Res.Ok (Some w) ->
-       let unk = !answered in
-       let opt = match w.Server.w_edns with
-         | Some (sz, up) -> [Printf.sprintf "00/41/%d/%d/-" (n sz) ((n up) lsl 24)]
-         | None -> [] in
-       let tsig = match w.Server.w_tsig with
-         | None -> []
-         | Some t ->
-           let rd = t.Server.t_request_rdata in
-           let al = int_of_nat (Server.tsig_alg_len rd) in
-           let macsz = (match RdataLite.get16 rd (nat_of_int (al + 8)) with Some x -> n x | None -> 0) in
-           let origid = (match RdataLite.get16 rd (nat_of_int (al + 10 + macsz)) with Some x -> n x | None -> 0) in
-           let algw, signed = (match t.Server.t_mode with
-             | Server.TUnsigned a -> a, 0
-             | Server.TResponse (a, _, _) -> Server.alg_name_wire a, 1) in
-           [Printf.sprintf "%s/250/255/0/TSIG(alg=%s;err=%d;origid=%d;signed=%d)"
-              (hex t.Server.t_key_wire) (hex algw) (n t.Server.t_error) origid signed] in
-       let ar = opt @ tsig in
-       let len =
-         if unk || tsig <> [] then "?"
-         else string_of_int (int_of_nat w.Server.w_cursor + (if opt <> [] then 11 else 0)) in
-       let u s = if unk then "?" else s in
-       Printf.sprintf "resp len=%s id=%d qr=1 aa=%s tc=%s rd=%d ra=0 z=0 op=%d rc=%s qd=%d an=%s ns=%s ar=%s Q=[%s] AN=[%s] NS=[%s] AR=[%s]%s"
-         len (n w.Server.w_id) (u (string_of_int (b w.Server.w_aa))) (u (string_of_int (b w.Server.w_tc)))
-         (b w.Server.w_rd) (n w.Server.w_opcode) (u (string_of_int (n w.Server.w_rcode)))
-         (match w.Server.w_question with Some _ -> 1 | None -> 0)
-         (u "0") (u "0") (u (string_of_int (Stdlib.List.length ar)))
-         (match w.Server.w_question with Some q -> show_q q | None -> "")
-         (u "") (u "") (if unk then "?" else String.concat "," ar)
-         (if !verified then " hmac" else ""))
-  | _ -> failwith "bad case"))
+        | Some (len, b) -> render_octets (take (int_of_nat len) b)))
+  | Res.Ok (Some w) ->
+    (* not answered from a zone: REFUSED / NOTIMP / SERVFAIL; only plain QUERY requests with one question
+       and no extended RCODE are generated for this suite *)
+    (match w.Server.w_question, w.Server.w_tsig with
+     | Some q, None ->
+       (match QueryW.respond_plain (buffer 4096) (tr = "t") w.Server.w_id w.Server.w_rd (Query.labels_of q.Reader.q_name)
+                q.Reader.q_type q.Reader.q_class
+                (match w.Server.w_edns with Some (sz, _) -> Some sz | None -> None) w.Server.w_limit w.Server.w_rcode with
+        | None -> "panic"
+        | Some (len, b) -> render_octets (take (int_of_nat len) b))
+     | _ -> "resp not-modelled")
+
+let show_verdict = function
+  | RespS.PairOk -> "ok"
+  | RespS.PUndecodable -> "bad:undecodable"
+  | RespS.PTooLong -> "bad:longer-than-the-limit-in-effect"
+  | RespS.PTcOnTcp -> "bad:TC-set-over-TCP"
+  | RespS.PTcWithRecords -> "bad:TC-with-records"
+  | RespS.PNotIdentical -> "bad:TCP-response-fits-but-UDP-response-differs"
+  | RespS.PHeaderDiffers -> "bad:header-differs"
+  | RespS.PMandatoryDiffers -> "bad:answer-or-authority-differs"
+  | RespS.PNotOmission -> "bad:additional-not-an-omission"
+  | RespS.PGlueOmitted -> "bad:in-bailiwick-glue-or-pseudo-record-omitted"
+
+let raws toks = Stdlib.List.filter_map (fun t ->
+  if String.length t > 4 && String.sub t 0 4 = "raw=" then Some (String.sub t 4 (String.length t - 4)) else None) toks
+
+let mode = if Array.length Sys.argv > 1 then Sys.argv.(1) else ""
+
+let () = run_lines (fun f ->
+  match mode, f with
+  | "--oracle02", [raw] -> if RespS.wf_response (unhex raw) then "ok" else "bad:not-well-formed"
+  | "--oracle04", edns :: their :: _ :: _ :: "@@" :: impl ->
+    (match raws impl with
+     | [u; t] ->
+       let th = if their = "-" then 0 else int_of_string their in
+       show_verdict (RespS.pair_check (n_of_int th) (n_of_int (int_of_string edns)) (unhex u) (unhex t))
+     | _ -> "bad:no-two-responses")
+  | "", [edns; their; cat; req] ->
+    (* oracle column: what the pair relation is evaluated against (the verdict itself needs the implementation's octets) *)
+    let lim = if their = "-" then "512" else string_of_int (max 512 (min (int_of_string their) (int_of_string edns))) in
+    "U " ^ respond "u" edns cat req ^ " ## T " ^ respond "t" edns cat req ^
+    " | pair relation (Spec/RespS.v pair_check) with UDP limit " ^ lim ^ " if the OPT was processed, else 512"
+  | _ -> failwith "bad case")
